@@ -229,8 +229,11 @@ class Gen:
             if kind == 'str':
                 out.append('s%d' % i)
             elif kind == 'map':
-                # now and then a falsy (empty) but perfectly valid mapping
-                out.append({'map': {}} if self.r.random() < 0.2 else
+                # now and then a falsy (empty) but perfectly valid mapping;
+                # rarely None (a NULL row): every look-up in the body fails,
+                # one more exit path
+                x = self.r.random()
+                out.append(None if x < 0.06 else {'map': {}} if x < 0.24 else
                            {'map': {'a': 'a%d' % i, 'n': i % 2}})
             elif kind == 'pair':
                 out.append({'pair': ['k%d' % i, {'obj': {'a': 'a%d' % i},
@@ -315,7 +318,9 @@ class Gen:
         w = self.site('W')
         mapping = r.random() < 0.4
         only = r.random() < 0.3
-        if mapping:
+        if mapping and r.random() < 0.06:
+            self.script[w] = {'v': None}      # None where a mapping belongs
+        elif mapping:
             self.script[w] = {'map': {} if r.random() < 0.25 else {'wv': 'w'},
                               'fallback': True}
         else:
